@@ -252,22 +252,34 @@ struct Obs {
     fold: f64,
 }
 
-fn enrich(kind: usize, bg: Vec<HpoTerm>, sample: Vec<HpoTerm>) -> Result<Vec<Obs>, String> {
-    // the functions take any IntoIterator: alternate between Vecs and iterators without an exact size hint
-    if (bg.len() + sample.len()) % 2 == 1 {
-        let bg = bg.into_iter().filter(|_| true);
-        let sample = sample.into_iter().map_while(Some);
-        return guarded(|| match kind {
-            GENE => gene_enrichment(bg, sample).iter().map(|e| Obs { id: e.id().as_u32(), count: e.count(), p: e.pvalue(), fold: e.enrichment() }).collect(),
-            OMIM => omim_disease_enrichment(bg, sample).iter().map(|e| Obs { id: e.id().as_u32(), count: e.count(), p: e.pvalue(), fold: e.enrichment() }).collect(),
-            _ => orpha_disease_enrichment(bg, sample).iter().map(|e| Obs { id: e.id().as_u32(), count: e.count(), p: e.pvalue(), fold: e.enrichment() }).collect(),
-        });
-    }
-    guarded(|| match kind {
+fn call<'a, B: IntoIterator<Item = HpoTerm<'a>>, S: IntoIterator<Item = HpoTerm<'a>>>(kind: usize, bg: B, sample: S) -> Vec<Obs> {
+    match kind {
         GENE => gene_enrichment(bg, sample).iter().map(|e| Obs { id: e.id().as_u32(), count: e.count(), p: e.pvalue(), fold: e.enrichment() }).collect(),
         OMIM => omim_disease_enrichment(bg, sample).iter().map(|e| Obs { id: e.id().as_u32(), count: e.count(), p: e.pvalue(), fold: e.enrichment() }).collect(),
         _ => orpha_disease_enrichment(bg, sample).iter().map(|e| Obs { id: e.id().as_u32(), count: e.count(), p: e.pvalue(), fold: e.enrichment() }).collect(),
-    })
+    }
+}
+
+fn enrich(kind: usize, bg: Vec<HpoTerm>, sample: Vec<HpoTerm>) -> Result<Vec<Obs>, String> {
+    // the functions take any IntoIterator: plain Vecs, iterators without an exact size hint, and lazy
+    // filters over a longer source (whose upper size bound is larger than what they yield)
+    match (bg.len() + sample.len()) % 3 {
+        1 => {
+            let bg = bg.into_iter().filter(|_| true);
+            let sample = sample.into_iter().map_while(Some);
+            guarded(|| call(kind, bg, sample))
+        }
+        2 if !bg.is_empty() => {
+            // every real element is followed by a filler that the filter drops again
+            let filler = bg[0];
+            let pb: Vec<HpoTerm> = bg.into_iter().flat_map(|t| [t, filler]).collect();
+            let ps: Vec<HpoTerm> = sample.into_iter().flat_map(|t| [t, filler]).collect();
+            let bg = pb.into_iter().enumerate().filter(|(i, _)| i % 2 == 0).map(|(_, t)| t);
+            let sample = ps.into_iter().enumerate().filter(|(i, _)| i % 2 == 0).map(|(_, t)| t);
+            guarded(|| call(kind, bg, sample))
+        }
+        _ => guarded(|| call(kind, bg, sample)),
+    }
 }
 
 fn rel_close(x: f64, y: f64, rel: f64) -> bool {
